@@ -7,29 +7,29 @@
 let ints s = List.map z_of_dec (List.filter (fun x -> x <> "") (String.split_on_char ',' (String.map (fun c -> if c = ':' then ',' else c) s)))
 let rec pairs = function a :: b :: r -> (a, b) :: pairs r | _ -> []
 let nat_of_z z = nat_of_int (int_of_z z)
-let parse_op (s : string) : op option =
+let parse_op (s : string) : sop option =
   let rest = String.sub s 1 (String.length s - 1) in
   let a = ints rest in
   match s.[0], a with
-  | ('A' | 'E'), vs -> Some (ONewSeq (KArray, vs))     (* E F G H: other element types, same semantics *)
-  | ('L' | 'F'), vs -> Some (ONewSeq (KList, vs))
-  | ('T' | 'G'), vs -> Some (ONewMap (KTable, pairs vs))
-  | ('R' | 'H'), vs -> Some (ONewMap (KTree, pairs vs))
-  | 'B', [v] -> Some (ONewBox v)
-  | 'p', [c; v] -> Some (OPush (nat_of_z c, v))
-  | 'o', [c] -> Some (OPop (nat_of_z c))
-  | 'i', [c; i; v] -> if int_of_z i < 0 then None else Some (OPushAt (nat_of_z c, nat_of_z i, v))
-  | 'x', [c; i] -> if int_of_z i < 0 then None else Some (OPopAt (nat_of_z c, nat_of_z i))
-  | 's', [c; i; v] -> if int_of_z i < 0 then None else Some (OSet (nat_of_z c, nat_of_z i, v))
-  | 'r', [c; v] -> Some (ORem (nat_of_z c, v))
-  | 'c', [c; d] -> Some (OConcat (nat_of_z c, nat_of_z d))
-  | 'z', [c; n] -> Some (OResize (nat_of_z c, nat_of_z n))
-  | 'q', [c] -> Some (OSort (nat_of_z c))
-  | 'a', [c; d] -> Some (OAssign (nat_of_z c, nat_of_z d))
-  | 'y', [d] -> Some (OCopy (nat_of_z d))
-  | 'd', [c] -> Some (ODel (nat_of_z c))
-  | 'm', [c; k; v] -> Some (OMSet (nat_of_z c, k, v))
-  | 'n', [c; k] -> Some (OMRem (nat_of_z c, k))
+  | ('A' | 'E'), vs -> Some (SOp (ONewSeq (KArray, vs))) (* E F G H: other element types, same semantics *)
+  | ('L' | 'F'), vs -> Some (SOp (ONewSeq (KList, vs))) 
+  | ('T' | 'G'), vs -> Some (SOp (ONewMap (KTable, pairs vs))) 
+  | ('R' | 'H'), vs -> Some (SOp (ONewMap (KTree, pairs vs))) 
+  | 'B', [v] -> Some (SOp (ONewBox v))
+  | 'p', [c; v] -> Some (SOp (OPush (nat_of_z c, v))) 
+  | 'o', [c] -> Some (SOp (OPop (nat_of_z c))) 
+  | 'i', [c; i; v] -> Some (SPushAt (nat_of_z c, i, v))
+  | 'x', [c; i] -> Some (SPopAt (nat_of_z c, i))
+  | 's', [c; i; v] -> Some (SSet (nat_of_z c, i, v))
+  | 'r', [c; v] -> Some (SOp (ORem (nat_of_z c, v))) 
+  | 'c', [c; d] -> Some (SOp (OConcat (nat_of_z c, nat_of_z d))) 
+  | 'z', [c; n] -> Some (SOp (OResize (nat_of_z c, nat_of_z n))) 
+  | 'q', [c] -> Some (SOp (OSort (nat_of_z c))) 
+  | 'a', [c; d] -> Some (SOp (OAssign (nat_of_z c, nat_of_z d))) 
+  | 'y', [d] -> Some (SOp (OCopy (nat_of_z d))) 
+  | 'd', [c] -> Some (SOp (ODel (nat_of_z c))) 
+  | 'm', [c; k; v] -> Some (SOp (OMSet (nat_of_z c, k, v))) 
+  | 'n', [c; k] -> Some (SOp (OMRem (nat_of_z c, k))) 
   | _ -> None
 let zcmp a b = if z_ltb a b then -1 else if z_ltb b a then 1 else 0
 let dump w =
@@ -49,7 +49,7 @@ let () =
     let w = ref w_init in
     let outs = List.map (fun t ->
       let before = !w in
-      (match parse_op t with Some o -> w := step before o | None -> ());
+      (match parse_op t with Some o -> w := sstep before o | None -> ());
       let nd0 = List.length (dead before) in
       let killed = List.filteri (fun i _ -> i >= nd0) (dead !w) in
       let dv = List.sort zcmp (List.map snd killed) in
